@@ -16,6 +16,12 @@ T_MAX = 300             # generators for termination-sensitive checks keep T bel
 T_MAX_COND = 600        # same for the conditioned game (renormalisation can slow absorption down a lot)
 
 
+def t_limit(n):
+    """Largest exact T explored for a game of n states: slow games are affordable when they are small
+    (the worst case, a solve that really does not terminate, costs about 260 * T * n node updates, i.e. about 2e7)."""
+    return max(T_MAX, 80000 // max(int(n), 1))
+
+
 def sweep_bound(T, R):
     """Upper bound on the sweeps value iteration may need on a stopping game with maximal
     expected absorption time T and largest reward R (DESIGN 2.5): after 2T steps at most half
@@ -58,6 +64,11 @@ class GameFacts:
     @property
     def T(self):
         return self._get("T", lambda: exact.max_expected_steps(self.game))
+
+    @property
+    def too_slow(self):
+        """True if the exact maximal expected absorption time exceeds what is explored for this size."""
+        return self.T > t_limit(self.n)
 
     @property
     def R(self):
@@ -107,10 +118,11 @@ class Solved:
             T = exact.max_expected_steps(g)
         except OracleError:
             self.iterated_not_stopping = True
-            return sweep_bound(T_MAX, self.facts.R)
+            return sweep_bound(t_limit(len(state_list)), self.facts.R)
         self.iterated_T = T
-        if T > T_MAX_COND:
-            raise SkipSolve(f"conditioned game has T={float(T):.0f} > {T_MAX_COND}")
+        lim = 2 * t_limit(len(state_list))
+        if T > lim:
+            raise SkipSolve(f"conditioned game has T={float(T):.0f} > {lim}")
         return sweep_bound(T, self.facts.R)
 
     def _get(self, key, fn):
@@ -235,8 +247,9 @@ def reward_phase_budget_generic(state_list):
         T = exact.max_expected_steps(g)
     except OracleError:
         return sweep_bound(T_MAX, R)
-    if T > T_MAX_COND:
-        raise SkipSolve(f"conditioned game has T={float(T):.0f} > {T_MAX_COND}")
+    lim = 2 * t_limit(len(state_list))
+    if T > lim:
+        raise SkipSolve(f"conditioned game has T={float(T):.0f} > {lim}")
     return sweep_bound(T, R)
 
 
